@@ -923,6 +923,9 @@ fn gen_case_c12(r: &mut Rng, seed: u64, idx: u64) -> Case {
         let q: Vec<u32> = (0..r.below(2)).map(|_| gen_sig_ty(r)).collect();
         if !types.contains(&(p.clone(), q.clone())) { types.push((p, q)); }
     }
+    // a third of the bases declare a structurally equal type twice (legal, kept by the parser): the id a build gets for a
+    // new signature must then still be the next free position of the type table, not the size of the dedup map
+    if r.chance(1, 3) { let d = r.pick(&types).clone(); types.push(d); if r.chance(1, 3) { let d2 = r.pick(&types).clone(); types.push(d2); } }
     let mut imports: Vec<(u64, u64)> = vec![];
     for _ in 0..r.below(4) { let k = match r.below(8) { 0..=4 => 0, 5 => 1, 6 => 2, _ => 3 }; let fp = nfp(&mut fpc); imports.push((k, fp)); }
     let mut bfuncs: Vec<FObs> = vec![];
